@@ -151,8 +151,10 @@ fn judge_cli(ctx: &mut Ctx, sub: &str, kind: &str, args: Vec<String>, stdin: Opt
     ctx.note_outcome(sub, class);
     ctx.nontrivial.insert(crate::ctx::hash_str(&case.to_string()));
     let mut bad: Option<String> = None;
-    if o.signal.is_some() || o.stderr.contains("panicked") || !(o.code == Some(0) || o.code == Some(1)) {
-        bad = Some(format!("the process must end with exit status 0 or 1 and no panic ({})", exp.why));
+    // which non-zero status reports an error is the tool's business; a signal, a panic (Rust exits 101,
+    // an abort raises SIGABRT / 134 through a shell) is not an orderly end
+    if o.signal.is_some() || o.stderr.contains("panicked at") || o.code == Some(101) || o.code == Some(134) || o.code.is_none() {
+        bad = Some(format!("the process must end with an orderly exit status, no panic or signal ({})", exp.why));
     } else if strict_stdout {
         if exp.success {
             if o.code != Some(0) || o.stdout != exp.stdout {
